@@ -66,8 +66,8 @@ def _second_opinion(pid, repo, tier, seed, rep):
     collapsed, or a violation is reported - are re-examined on a semantics-preserving normal form of the program
     (private helpers inlined statement by statement, see qsa.normalize).  The property is a statement about behaviour, so
     it has the same truth value on both forms.  Per rule: if the rule is fully decided on the normal form and every
-    obligation holds there (or is a listed known finding), those obligations replace the contested ones; a violation that
-    is reported on both forms stands."""
+    obligation holds there (or is a listed known finding), those obligations replace the contested ones; otherwise the
+    verdicts obtained on the source as written stand."""
     import shutil
     import tempfile
     from .report import UNDECIDED, VIOLATION, HOLDS, INFO
@@ -101,9 +101,10 @@ def _second_opinion(pid, repo, tier, seed, rep):
                     continue
                 if len(obs2) < max(1, (rep.floors.get(r, 1) + 1) // 2):
                     continue
-                had_violation = any(o.rule == r and o.status == VIOLATION and o.known is None for o in rep.obs)
-                if had_violation and any(o.status == VIOLATION and o.known is None for o in obs2):
-                    continue        # reported on both forms
+                if any(o.status == VIOLATION and o.known is None for o in obs2):
+                    # a violation on both forms stands as reported on the source; a violation seen on the normal form only is not
+                    # adopted either (the rule's reading of the rewritten code is not the reference): the source verdict stays
+                    continue
                 # replace this rule's obligations by the ones decided on the normal form
                 rep.obs = [o for o in rep.obs if o.rule != r]
                 rep._bykey = {k: v for k, v in rep._bykey.items() if v.rule != r}
